@@ -462,4 +462,276 @@ Proof.
   apply map_ext. intros e. rewrite Hoffs. reflexivity.
 Qed.
 
+(* ------------------------------------------------------------------ writerange (scalar offset) *)
+(* forward distance from slot p to slot i *)
+Definition rel (n p i : nat) : nat := if p <=? i then i - p else i + n - p.
+
+Lemma fold_upd_spec {X} (dflt : X) (n p : nat) (g : nat -> X) (len : nat) (l : list X) (i : nat) :
+  0 < n -> length l = n -> p < n -> len <= n -> i < n ->
+  nth i (fold_left (fun rs j => upd rs (unwind p (- Z.of_nat j) n) (g j)) (seq 0 len) l) dflt
+  = if rel n p i <? len then g (rel n p i) else nth i l dflt.
+Proof.
+  intros Hn Hl Hp. induction len as [|len IH]; intros Hlen Hi.
+  - cbn [seq fold_left]. destruct (rel n p i <? 0) eqn:E; [apply Nat.ltb_lt in E; lia|reflexivity].
+  - rewrite seq_S, fold_left_app. cbn [fold_left Nat.add].
+    set (acc := fold_left _ (seq 0 len) l) in *.
+    assert (Hacc : length acc = n).
+    { unfold acc. clear IH. generalize l Hl. generalize (seq 0 len). intros js. induction js as [|j js IHj]; intros l0 Hl0; cbn [fold_left]; auto.
+      apply IHj. rewrite upd_length. exact Hl0. }
+    assert (Hu : unwind p (- Z.of_nat len) n = if p + len <? n then p + len else p + len - n).
+    { unfold unwind, _unwind_ptr.
+      destruct (mod_cases (Z.of_nat p - - Z.of_nat len) (Z.of_nat n) ltac:(lia)) as [(H1 & H2 & _)|(H1 & H2 & _)];
+        rewrite H2; destruct (Nat.ltb_spec (p + len) n); lia. }
+    rewrite nth_upd by (rewrite Hacc; apply unwind_lt; exact Hn).
+    rewrite IH by lia. rewrite Hu. unfold rel.
+    destruct (Nat.ltb_spec (p + len) n); destruct (Nat.leb_spec p i);
+      repeat match goal with |- context [Nat.eqb ?a ?b] => destruct (Nat.eqb_spec a b) end;
+      repeat match goal with |- context [Nat.ltb ?a ?b] => destruct (Nat.ltb_spec a b) end;
+      try lia; try reflexivity; f_equal; lia.
+Qed.
+
+Lemma noncontig_spec {X} (dflt : X) (n p len : nat) (c l : list X) (i : nat) :
+  length l = n -> length c = len -> p < n -> len <= n -> n < p + len -> i < n ->
+  nth i (skipn (n - p) c ++ slice l (len - (n - p)) p ++ firstn (n - p) c) dflt
+  = if rel n p i <? len then nth (rel n p i) c dflt else nth i l dflt.
+Proof.
+  intros Hl Hc Hp Hlen Hnc Hi. unfold rel, slice.
+  destruct (Nat.lt_ge_cases i (len - (n - p))) as [H1|H1].
+  - rewrite app_nth1 by (rewrite skipn_length; lia). rewrite nth_skipn'.
+    destruct (Nat.leb_spec p i); [lia|]. destruct (Nat.ltb_spec (i + n - p) len); [f_equal; lia|lia].
+  - rewrite app_nth2 by (rewrite skipn_length; lia). rewrite skipn_length, Hc.
+    destruct (Nat.lt_ge_cases i p) as [H2|H2].
+    + rewrite app_nth1 by (rewrite firstn_length, skipn_length; lia).
+      rewrite nth_firstn' by lia. rewrite nth_skipn'.
+      destruct (Nat.leb_spec p i); [lia|]. destruct (Nat.ltb_spec (i + n - p) len); [lia|f_equal; lia].
+    + rewrite app_nth2 by (rewrite firstn_length, skipn_length; lia).
+      rewrite firstn_length, skipn_length, Hl. rewrite nth_firstn' by lia.
+      destruct (Nat.leb_spec p i); [|lia]. destruct (Nat.ltb_spec (i - p) len); [f_equal; lia|lia].
+Qed.
+
+Lemma contig_spec {X} (dflt : X) (n p len : nat) (c l : list X) (i : nat) :
+  length l = n -> length c = len -> p < n -> p + len <= n -> i < n ->
+  nth i (firstn p l ++ c ++ skipn (p + len) l) dflt
+  = if rel n p i <? len then nth (rel n p i) c dflt else nth i l dflt.
+Proof.
+  intros Hl Hc Hp Hlen Hi. unfold rel.
+  destruct (Nat.lt_ge_cases i p) as [H1|H1].
+  - rewrite app_nth1 by (rewrite firstn_length; lia). rewrite nth_firstn' by lia.
+    destruct (Nat.leb_spec p i); [lia|]. destruct (Nat.ltb_spec (i + n - p) len); [lia|reflexivity].
+  - rewrite app_nth2 by (rewrite firstn_length; lia). rewrite firstn_length, Hl.
+    replace (Nat.min p n) with p by lia.
+    destruct (Nat.leb_spec p i); [|lia].
+    destruct (Nat.lt_ge_cases (i - p) len) as [H2|H2].
+    + rewrite app_nth1 by lia. destruct (Nat.ltb_spec (i - p) len); [reflexivity|lia].
+    + rewrite app_nth2 by lia. rewrite Hc, nth_skipn'.
+      destruct (Nat.ltb_spec (i - p) len); [lia|f_equal; lia].
+Qed.
+
+(* steps-before-present of slot i relative to the (shifted) offset: which column of the range lands
+   on the observation k steps before the write position *)
+Definition hit (s : ring) (off : Z) (k : Z) : nat :=
+  Z.to_nat ((off - k) mod Z.of_nat (N s)).
+
+Lemma rel_idx s off k : wf s -> rel (N s) (idx s off) (idx s k) = hit s off k.
+Proof.
+  intros Hwf. pose proof Hwf as (Hn & Hp & _). pose proof (idx_lt s off Hwf). pose proof (idx_lt s k Hwf).
+  unfold rel, hit. pose proof (unwind_Z (ptr s) off (N s) Hn) as H1. pose proof (unwind_Z (ptr s) k (N s) Hn) as H2.
+  fold (idx s off) in H1. fold (idx s k) in H2.
+  assert (E : ((off - k) mod Z.of_nat (N s) = (Z.of_nat (idx s k) - Z.of_nat (idx s off)) mod Z.of_nat (N s))%Z).
+  { rewrite H1, H2. rewrite <- Zminus_mod. f_equal. lia. }
+  rewrite E. destruct (Nat.leb_spec (idx s off) (idx s k)).
+  - rewrite Z.mod_small by lia. lia.
+  - destruct (mod_cases (Z.of_nat (idx s k) - Z.of_nat (idx s off) + Z.of_nat (N s)) (Z.of_nat (N s)) ltac:(lia)) as [(Hm3 & Hm4 & _)|(Hm3 & Hm4 & _)]; [|lia].
+    replace ((Z.of_nat (idx s k) - Z.of_nat (idx s off)) mod Z.of_nat (N s))%Z
+      with ((Z.of_nat (idx s k) - Z.of_nat (idx s off) + Z.of_nat (N s)) mod Z.of_nat (N s))%Z.
+    + rewrite Hm4. lia.
+    + replace (Z.of_nat (idx s k) - Z.of_nat (idx s off) + Z.of_nat (N s))%Z
+        with (Z.of_nat (idx s k) - Z.of_nat (idx s off) + 1 * Z.of_nat (N s))%Z by lia.
+      apply Z.mod_add. lia.
+Qed.
+
+(* writing a range with a scalar offset, all three code paths: column j of the range lands on the
+   observation (off' - j) steps before the write position, every other observation is unchanged;
+   the in-place and the wrapping path convert to the record's data type, the contiguous
+   out-of-place path promotes the whole storage (torch.cat) *)
+Theorem writerange_scalar_spec s r off fwd inplace : wf s -> full s ->
+  let len := range_len r in
+  let off' := shift_off off len fwd in
+  1 <= len <= N s -> Forall (fun c => length c = len) (rcols r) ->
+  exists d sh, st s = SFull d sh (rows s) /\
+    (shape_eqb (rshape r) sh = true ->
+     exists s' d', writerange_scalar s r off fwd inplace = Ok s' OUnit /\ wf s' /\ N s' = N s /\ ptr s' = ptr s /\
+       st s' = SFull d' sh (rows s') /\
+       d' = (if inplace || (N s <? idx s off' + len) then d else promote d (rdt r)) /\
+       forall k, at_ s' k =
+         if inplace || (N s <? idx s off' + len)
+         then (if hit s off' k <? len then map (cast d) (col zeroA (rcols r) (hit s off' k)) else at_ s k)
+         else map (cast d') (if hit s off' k <? len then col zeroA (rcols r) (hit s off' k) else at_ s k)).
+Proof.
+  intros Hwf Hf len off' Hlen Hcols. pose proof Hwf as (Hn & Hp & Hst).
+  unfold full in Hf. unfold writerange_scalar. fold len. fold off'. unfold rows at 1.
+  destruct (st s) as [| |d sh rw] eqn:Est; try contradiction. rename Hst into Hrl.
+  exists d, sh. split; [reflexivity|]. intros Hsh. rewrite Hsh. cbn [negb].
+  replace (N s <? len) with false by (symmetry; apply Nat.ltb_ge; lia).
+  set (p := idx s off').
+  assert (Hp' : p < N s) by (apply idx_lt; exact Hwf).
+  set (obsT := map (col zeroA (rcols r)) (seq 0 len)).
+  set (castT := map (map (cast d)) obsT).
+  assert (HoT : length obsT = len) by (unfold obsT; rewrite map_length, seq_length; reflexivity).
+  assert (HcT : length castT = len) by (unfold castT; rewrite map_length; exact HoT).
+  assert (HnthC : forall j, j < len -> nth j castT [] = map (cast d) (col zeroA (rcols r) j)).
+  { intros j Hj. unfold castT. change (@nil A) with (map (cast d) (@nil A)) at 1. rewrite map_nth.
+    unfold obsT. rewrite nth_map_seq by exact Hj. reflexivity. }
+  assert (HnthO : forall j, j < len -> nth j obsT [] = col zeroA (rcols r) j).
+  { intros j Hj. unfold obsT. rewrite nth_map_seq by exact Hj. reflexivity. }
+  destruct inplace; cbn [orb].
+  - (* in place *)
+    eexists; exists d. split; [reflexivity|]. unfold set_st; cbn [N ptr st].
+    assert (Hlenf : forall js l0, length l0 = N s ->
+              length (fold_left (fun rs j => upd rs (unwind p (- Z.of_nat j) (N s)) (nth j castT [])) js l0) = N s).
+    { intros js. induction js as [|j js IHj]; intros l0 Hl0; cbn [fold_left]; auto. apply IHj. rewrite upd_length. exact Hl0. }
+    split; [unfold wf; cbn [N ptr st]; rewrite Hlenf by exact Hrl; auto|].
+    split; [reflexivity|]. split; [reflexivity|]. split; [reflexivity|]. split; [reflexivity|].
+    intros k. unfold at_ at 1. unfold rows; cbn [st].
+    change (idx (mkRing (N s) (ptr s) _) k) with (idx s k).
+    rewrite (fold_upd_spec [] (N s) p (fun j => nth j castT []) len rw (idx s k) Hn Hrl Hp' ltac:(lia) (idx_lt s k Hwf)).
+    unfold p. rewrite rel_idx by exact Hwf.
+    destruct (Nat.ltb_spec (hit s off' k) len) as [Hh|Hh].
+    + apply HnthC; exact Hh.
+    + unfold at_, rows. rewrite Est. reflexivity.
+  - destruct (Nat.ltb_spec (N s) (p + len)) as [Hnc|Hc].
+    + (* wrapping, out of place *)
+      eexists; exists d. split; [reflexivity|]. unfold set_st; cbn [N ptr st].
+      assert (Hl' : length (skipn (N s - p) castT ++ slice rw (len - (N s - p)) p ++ firstn (N s - p) castT) = N s).
+      { unfold slice. rewrite !app_length, skipn_length, !firstn_length, skipn_length, HcT, Hrl. lia. }
+      split; [unfold wf; cbn [N ptr st]; rewrite Hl'; auto|].
+      split; [reflexivity|]. split; [reflexivity|]. split; [reflexivity|]. split; [reflexivity|].
+      intros k. unfold at_ at 1. unfold rows; cbn [st].
+      change (idx (mkRing (N s) (ptr s) _) k) with (idx s k).
+      rewrite (noncontig_spec [] (N s) p len castT rw (idx s k) Hrl HcT Hp' ltac:(lia) Hnc (idx_lt s k Hwf)).
+      unfold p. rewrite rel_idx by exact Hwf.
+      destruct (Nat.ltb_spec (hit s off' k) len) as [Hh|Hh].
+      * apply HnthC; exact Hh.
+      * unfold at_, rows. rewrite Est. reflexivity.
+    + (* contiguous, out of place: promoted *)
+      eexists; eexists. split; [reflexivity|]. unfold set_st; cbn [N ptr st].
+      assert (Hl' : length (firstn p rw ++ obsT ++ skipn (p + len) rw) = N s).
+      { rewrite !app_length, firstn_length, skipn_length, HoT, Hrl. lia. }
+      split; [unfold wf; cbn [N ptr st]; rewrite map_length, Hl'; auto|].
+      split; [reflexivity|]. split; [reflexivity|]. split; [reflexivity|]. split; [reflexivity|].
+      intros k. unfold at_ at 1. unfold rows; cbn [st].
+      change (idx (mkRing (N s) (ptr s) _) k) with (idx s k).
+      change (@nil A) with (map (cast (promote d (rdt r))) (@nil A)) at 1. rewrite map_nth. f_equal.
+      rewrite (contig_spec [] (N s) p len obsT rw (idx s k) Hrl HoT Hp' Hc (idx_lt s k Hwf)).
+      unfold p. rewrite rel_idx by exact Hwf.
+      destruct (Nat.ltb_spec (hit s off' k) len) as [Hh|Hh].
+      * apply HnthO; exact Hh.
+      * unfold at_, rows. rewrite Est. reflexivity.
+Qed.
+
+(* ------------------------------------------------------------------ invariant over every run *)
+Notation step := (@step A D cast promote D_eqb zeroA).
+Notation run := (@run A D cast promote D_eqb zeroA).
+
+Lemma fold_upd_length {X Y} (f : list X -> Y -> nat) (g : list X -> Y -> X) js : forall (l : list X),
+  length (fold_left (fun rs j => upd rs (f rs j) (g rs j)) js l) = length l.
+Proof. induction js as [|j js IH]; intros l; cbn [fold_left]; auto. rewrite IH, upd_length. reflexivity. Qed.
+
+Lemma wf0 (s : ring) : 0 < N s -> ptr s < N s -> ~ full s -> wf s.
+Proof. intros Hn Hp Hf. unfold wf, full in *. destruct (st s); auto. exfalso; apply Hf; exact I. Qed.
+
+Theorem step_wf s o s' out : wf s -> step s o = Ok s' out -> wf s' /\ N s' = N s.
+Proof.
+  intros Hwf Hs. pose proof Hwf as (Hn & Hp & Hst).
+  destruct o; cbn [Ring.step] in Hs.
+  - (* push *)
+    destruct (st s) eqn:Est.
+    + destruct (push_creates_storage s o inplace Hn ltac:(unfold full; rewrite Est; tauto)) as (s2 & H1 & H2 & H3 & _).
+      rewrite H1 in Hs. injection Hs as <- _. auto.
+    + destruct (push_creates_storage s o inplace Hn ltac:(unfold full; rewrite Est; tauto)) as (s2 & H1 & H2 & H3 & _).
+      rewrite H1 in Hs. injection Hs as <- _. auto.
+    + assert (Hf : full s) by (unfold full; rewrite Est; exact I).
+      destruct (hist_push s o inplace Hwf Hf) as (d0 & sh0 & Est0 & Hpush).
+      destruct (shape_eqb (oshape o) sh0) eqn:Esh.
+      * destruct (Hpush eq_refl) as (s2 & H1 & H2 & H3 & _). rewrite H1 in Hs. injection Hs as <- _. auto.
+      * exfalso. unfold Ring.push in Hs. rewrite Est in Hs. unfold Ring.write in Hs. rewrite Est in Hs.
+        rewrite Est in Est0. injection Est0 as <- <- _. rewrite Esh in Hs. cbn in Hs. discriminate.
+  - (* pop *)
+    destruct (st s) eqn:Est; try (unfold Ring.pop in Hs; rewrite Est in Hs; injection Hs as <- _; auto).
+    assert (Hf : full s) by (unfold full; rewrite Est; exact I).
+    destruct (pop_spec s Hwf Hf) as (d0 & sh0 & s2 & _ & H1 & H2 & H3 & _).
+    rewrite H1 in Hs. injection Hs as <- _. auto.
+  - (* peek *)
+    unfold Ring.peek, Ring.read in Hs. destruct (st s); injection Hs as <- _; auto.
+  - (* read *)
+    unfold Ring.read in Hs. destruct (st s); try discriminate. injection Hs as <- _; auto.
+  - (* write *)
+    split; [eapply wf_write; eauto|].
+    unfold Ring.write in Hs. destruct (st s); try discriminate.
+    destruct (negb _); try discriminate. destruct inplace; injection Hs as <- _; reflexivity.
+  - (* incr *)
+    destruct (st s) eqn:Est; try (unfold Ring.incr in Hs; rewrite Est in Hs; discriminate).
+    assert (Hf : full s) by (unfold full; rewrite Est; exact I).
+    destruct (incr_spec s k Hwf Hf) as (s2 & H1 & H2 & H3 & _). rewrite H1 in Hs. injection Hs as <- _. auto.
+  - (* decr *)
+    destruct (st s) eqn:Est; try (unfold Ring.decr in Hs; rewrite Est in Hs; discriminate).
+    assert (Hf : full s) by (unfold full; rewrite Est; exact I).
+    destruct (decr_spec s k Hwf Hf) as (s2 & H1 & H2 & H3 & _). rewrite H1 in Hs. injection Hs as <- _. auto.
+  - (* align *)
+    unfold Ring.align in Hs. destruct ((0 <=? i)%Z && (i <? Z.of_nat (N s))%Z) eqn:Ei; cbn [negb] in Hs; try discriminate.
+    destruct (st s) eqn:Est; try discriminate.
+    assert (Hf : full s) by (unfold full; rewrite Est; exact I).
+    destruct (align_spec s i Hwf Hf ltac:(lia)) as (s2 & H1 & H2 & H3 & _).
+    unfold Ring.align in H1. rewrite Ei, Est in H1. cbn [negb] in H1. rewrite H1 in Hs. injection Hs as <- _. auto.
+  - (* reset *)
+    destruct fill as [f|].
+    + unfold Ring.reset in Hs. destruct (st s) eqn:Est; injection Hs as <- _;
+        unfold wf; cbn [N ptr st]; rewrite ?map_length; repeat split; auto; try lia.
+    + unfold Ring.reset, Ring.align in Hs.
+      destruct ((0 <=? 0)%Z && (0 <? Z.of_nat (N s))%Z) eqn:Ei; cbn [negb] in Hs; try discriminate.
+      destruct (st s) eqn:Est; try discriminate.
+      assert (Hf : full s) by (unfold full; rewrite Est; exact I).
+      destruct (reset_none_spec s Hwf Hf) as (s2 & H1 & H2 & H3 & _).
+      unfold Ring.reset, Ring.align in H1. rewrite Ei, Est in H1. cbn [negb] in H1. rewrite H1 in Hs. injection Hs as <- _. auto.
+  - (* readrange scalar *)
+    unfold Ring.readrange_scalar in Hs. destruct (st s); try discriminate. injection Hs as <- _; auto.
+  - (* readrange tensor *)
+    unfold Ring.readrange_tensor in Hs. destruct (st s); try discriminate.
+    destruct (negb _); try discriminate. injection Hs as <- _; auto.
+  - (* writerange scalar *)
+    unfold Ring.writerange_scalar in Hs. destruct (st s) as [| |d sh rw] eqn:Est; try discriminate.
+    destruct (negb _); try discriminate.
+    destruct (Nat.ltb_spec (N s) (range_len r)) as [|Hle]; try discriminate.
+    set (len := range_len r) in *. set (p := idx s (shift_off off len fwd)) in *.
+    assert (Hp' : p < N s) by (apply idx_lt; exact Hwf).
+    destruct inplace.
+    + injection Hs as <- _. unfold wf, set_st; cbn [N ptr st].
+      rewrite (fold_upd_length (fun _ j => unwind p (- Z.of_nat j) (N s))
+                 (fun _ j => nth j (map (map (cast d)) (map (col zeroA (rcols r)) (seq 0 len))) [])).
+      auto.
+    + destruct (Nat.ltb_spec (N s) (p + len)); injection Hs as <- _; unfold wf, set_st; cbn [N ptr st];
+        (split; [split; [exact Hn|split; [exact Hp|]]|reflexivity]).
+      * unfold slice. rewrite !app_length, skipn_length, !firstn_length, skipn_length, !map_length, seq_length. lia.
+      * rewrite map_length, !app_length, firstn_length, skipn_length, map_length, seq_length. lia.
+  - (* writerange tensor *)
+    unfold Ring.writerange_tensor in Hs. destruct (st s) as [| |d sh rw] eqn:Est; try discriminate.
+    repeat match type of Hs with context [if ?c then _ else _] => destruct c; try discriminate end.
+    injection Hs as <- _. unfold wf, set_st; cbn [N ptr st].
+    split; [split; [exact Hn|split; [exact Hp|]]|reflexivity].
+    match goal with |- length (fold_left ?f ?jj ?l) = _ =>
+      assert (Hgen : forall js0 l0, length (fold_left f js0 l0) = length l0) end.
+    { intros js0. induction js0 as [|[j e] js0 IH]; intros l0; cbn [fold_left]; auto. rewrite IH, upd_length. reflexivity. }
+    rewrite Hgen. exact Hst.
+Qed.
+
+(* every reachable state is well formed and the record size never changes *)
+Theorem run_wf : forall ops s, wf s -> wf (fst (run s ops)) /\ N (fst (run s ops)) = N s.
+Proof.
+  induction ops as [|o ops IH]; intros s Hwf; cbn [Ring.run fst]; [auto|].
+  destruct (step s o) as [s' out|e] eqn:Es.
+  - destruct (step_wf s o s' out Hwf Es) as (Hwf' & HN').
+    destruct (IH s' Hwf') as (H1 & H2). destruct (run s' ops) as [sf outs]. cbn [fst] in *. split; [exact H1|congruence].
+  - destruct (IH s Hwf) as (H1 & H2). destruct (run s ops) as [sf outs]. cbn [fst] in *. auto.
+Qed.
+
 End Proofs.
